@@ -192,6 +192,7 @@ func runC13(e *sim.Env) {
 			tb.Draw(mix)
 		}
 		// sometimes include transactions that really get confirmed on the way
+		laterIDs := map[types.TransactionID]bool{}
 		if nApply > 0 && e.Chance(1, 2) {
 			for _, n := range to.PathFromGenesis()[fork.Height+1:] {
 				for _, txn := range n.Block.V2Transactions() {
@@ -199,6 +200,7 @@ func runC13(e *sim.Env) {
 						// re-proof it for `from` when its inputs exist there
 						tb.Strict = false // may legitimately conflict with the set so far
 						if fresh, ok := refreshV2(txn, from.L, nil); ok && tb.CommitV2("confirmed-later", fresh) {
+							laterIDs[fresh.ID()] = true
 							e.Probe("set_has_later_confirmed_txn")
 							tb.Mark("set_has_later_confirmed_txn")
 						}
@@ -214,6 +216,21 @@ func runC13(e *sim.Env) {
 			}
 		}
 		set := tb.V2Txns
+		if len(laterIDs) > 0 && e.Chance(1, 2) {
+			// the children on their own (the way a renter rebases its transaction
+			// while the parents travel separately): their inputs still get the
+			// elements of the parents confirmed on the way
+			var alone []types.V2Transaction
+			for _, t := range set {
+				if !laterIDs[t.ID()] {
+					alone = append(alone, t)
+				}
+			}
+			if len(alone) > 0 && len(alone) < len(set) {
+				set = alone
+				e.Probe("rebase_children_without_their_confirmed_parents")
+			}
+		}
 		if len(set) == 0 {
 			continue
 		}
